@@ -4,8 +4,8 @@ from .. import env, coq, runner
 
 LEVEL = 'proof'
 META = dict(
-    text='Coq theorems (unbounded): bit packing round-trips for every number of repetitions with zero padding and little-endian-in-byte order; the constants-table interning scheme of the circuit serializer round-trips every circuit over abstract leaves with decidable equality, shares an index exactly between equal items and only refers backwards; result messages (keys x instances x qubits x packed repetitions) round-trip; the qubit id codec (qubit_to_proto_id / qubit_from_proto_id: decimal printing, split on underscores, the grid pattern, int()) reads back every grid, line, named and coupler qubit of the documented vocabulary for all signed coordinates, ids of the vocabulary never collide, and the unrestricted statement is refuted (a named qubit called 3); the device read from a DeviceSpecification holds a coupling exactly where a SYMMETRIC target set lists the two ids in either order (target sets of any other ordering and targets of any other size add nothing), its validate_operation accepts a two-qubit gate exactly on those couplings and measurement / wait on any device qubits, and to_proto writes a specification of the same qubits and couplings that reads back as the same device; an array-valued argument, modelled as a strided view on a buffer (any strides: C- or Fortran-contiguous, transposed, sliced, reversed, broadcast; any offset), is written as its shape and its elements in the row-major order of their indices and reads back, for every shape with at least one axis, to an array with the same element at every index, the message depends on the elements at the indices only and never on the memory layout, bit arrays (most significant bit first, zero padded) round-trip, and the statement for zero-dimensional arrays is refuted (an empty shape field is read as an unset message); find_measurements accepts a program exactly with one entry per key whose qubits, order, invert mask and tags are those of EVERY operation writing to the key, accepts every program that measures each key alike on grid qubits, and for an accepted program the result message holds, under the id of the c-th qubit of the j-th operation of a key, at position r * instances + j, the bit the record has at [r][j][c].; a sequence-valued argument (list / tuple / set / frozenset of bools, numpy bools, integers, floats, strings and other values in any mixture and order) is written by arg_to_proto into the repeated numeric field that is wide enough for every element (the cursor over bool_values / int64_values / double_values only ever widens), into string_values, or element by element into a tuple_value, and is read back with the same length, every number unchanged (a lone number of a mixed tuple rounded once to single precision) and every other element as it was; nothing but an integer outside int64 is refused; a list comes back as a list, whereas the statement that every sequence keeps its kind is refuted (a tuple of numbers comes back as a list), and so is the rule that would pick the field from the leading element alone. The Gallina models are hand-written in the shape of the code and evaluated with vm_compute against the implementation on every run, together with direct round-trip oracles on the real serializers for circuits, sweeps, run contexts, results, simulated programs with repeated measurement keys, array-valued arguments, sequence-valued arguments (through the bare Arg, InternalGate / InternalTag arguments, ArgMapping values and keys, circuit function arguments, raw-value tags and whole programs) and device specifications.',
-    note='Trusted: Coq kernel; protobuf and numpy; the Python adapters in vf/checks/c16.py (calling cirq_google, assigning leaf identifiers by Python equality, printing Gallina literals); the leaf codecs (gate arguments, tags, conditions) are compared on generated cases, not proved; the qubit id model covers ASCII ids only; array elements are abstract in the model (the byte image of one number and its endianness are compared on generated cases through numpy); in the sequence model a float is the exact rational it denotes, an integer next to a float is assumed exact in a double (|z| <= 2^53), elements other than numbers and strings are opaque (their own round trip is judged by the Python oracle, recursively), and a set is given in its iteration order; the simulator (cirq.Simulator) is the reference for what a program records; the device model covers qubits, target sets and couplings (gates, durations and qubit attributes of a specification are judged by the Python oracle against device.proto); sweep values that carry units (tunits) are judged as physical quantities up to one single-precision rounding of the stored magnitude (2^-22 relative, 1e-12 with use_float64). Theorems are closed under the global context.',
+    text='Coq theorems (unbounded): bit packing round-trips for every number of repetitions with zero padding and little-endian-in-byte order; the constants-table interning scheme of the circuit serializer round-trips every circuit over abstract leaves with decidable equality, shares an index exactly between equal items and only refers backwards; result messages (keys x instances x qubits x packed repetitions) round-trip; the qubit id codec (qubit_to_proto_id / qubit_from_proto_id: decimal printing, split on underscores, the grid pattern, int()) reads back every grid, line, named and coupler qubit of the documented vocabulary for all signed coordinates, ids of the vocabulary never collide, and the unrestricted statement is refuted (a named qubit called 3); the device read from a DeviceSpecification holds a coupling exactly where a SYMMETRIC target set lists the two ids in either order (target sets of any other ordering and targets of any other size add nothing), its validate_operation accepts a two-qubit gate exactly on those couplings and measurement / wait on any device qubits, and to_proto writes a specification of the same qubits and couplings that reads back as the same device; validate_circuit accepts exactly the circuits whose every operation is valid by itself, whatever stands before it and in whatever order, where a Z power needs virtual_zpow without PhysicalZTag and physical_zpow under it, an FSimGate needs fsim_via_model / two_pulse_fsim under its tag, every other gate is judged without its tags, and the statement that an operation is valid once the same gate on the same qubits was accepted under other tags is refuted; an array-valued argument, modelled as a strided view on a buffer (any strides: C- or Fortran-contiguous, transposed, sliced, reversed, broadcast; any offset), is written as its shape and its elements in the row-major order of their indices and reads back, for every shape with at least one axis, to an array with the same element at every index, the message depends on the elements at the indices only and never on the memory layout, bit arrays (most significant bit first, zero padded) round-trip, and the statement for zero-dimensional arrays is refuted (an empty shape field is read as an unset message); find_measurements accepts a program exactly with one entry per key whose qubits, order, invert mask and tags are those of EVERY operation writing to the key, accepts every program that measures each key alike on grid qubits, and for an accepted program the result message holds, under the id of the c-th qubit of the j-th operation of a key, at position r * instances + j, the bit the record has at [r][j][c].; a sequence-valued argument (list / tuple / set / frozenset of bools, numpy bools, integers, floats, strings and other values in any mixture and order) is written by arg_to_proto into the repeated numeric field that is wide enough for every element (the cursor over bool_values / int64_values / double_values only ever widens), into string_values, or element by element into a tuple_value, and is read back with the same length, every number unchanged (a lone number of a mixed tuple rounded once to single precision) and every other element as it was; nothing but an integer outside int64 is refused; a list comes back as a list, whereas the statement that every sequence keeps its kind is refuted (a tuple of numbers comes back as a list), and so is the rule that would pick the field from the leading element alone. The Gallina models are hand-written in the shape of the code and evaluated with vm_compute against the implementation on every run, together with direct round-trip oracles on the real serializers for circuits, sweeps, run contexts, results, simulated programs with repeated measurement keys, array-valued arguments, sequence-valued arguments (through the bare Arg, InternalGate / InternalTag arguments, ArgMapping values and keys, circuit function arguments, raw-value tags and whole programs) and device specifications.',
+    note='Trusted: Coq kernel; protobuf and numpy; the Python adapters in vf/checks/c16.py (calling cirq_google, assigning leaf identifiers by Python equality, printing Gallina literals); the leaf codecs (gate arguments, tags, conditions) are compared on generated cases, not proved; the qubit id model covers ASCII ids only; array elements are abstract in the model (the byte image of one number and its endianness are compared on generated cases through numpy); in the sequence model a float is the exact rational it denotes, an integer next to a float is assumed exact in a double (|z| <= 2^53), elements other than numbers and strings are opaque (their own round trip is judged by the Python oracle, recursively), and a set is given in its iteration order; the simulator (cirq.Simulator) is the reference for what a program records; the device model covers qubits, target sets, couplings and the gates by kind (which concrete gates a GateSpecification name stands for, durations and qubit attributes are judged by the Python oracle against device.proto); sweep values that carry units (tunits) are judged as physical quantities up to one single-precision rounding of the stored magnitude (2^-22 relative, 1e-12 with use_float64). Theorems are closed under the global context.',
     technique='Rocq/Coq proof over executable Gallina models of pack_bits, the constants table and result messages + vm_compute correspondence and round-trip oracles against cirq_google',
 )
 
@@ -1693,6 +1693,16 @@ def devices_stream(ctx, cirq, cg, n):
             if dec[0] != dec[1] or dec[0] != want:
                 ctx.violation('device:validate', f'operation {op!r}: device says {dec[0]}, device read back from its specification says {dec[1]}, the specification says {want}; {rp}',
                               dict(rp, op=repr(op)))
+        # circuits of related operations (the same gate and qubits under other tags ...) before both devices
+        sq = frozenset(cirq.GridQubit(*[int(x) for x in i.split('_')]) for i in proto.valid_qubits)
+        sc = frozenset(frozenset(cirq.GridQubit(*[int(x) for x in i.split('_')]) for i in t.ids) for ts in proto.valid_targets for t in ts.targets if len(t.ids) == 2)
+        pool = related_ops(cirq, cg, sq, sc)
+        rel = related_circuits(pool, rng, False)
+        for label, d_ in (('the device', dev), ('the device read back from its specification', dev2)):
+            rel_problems, _ = judge_related_circuits(cirq, d_, pool, rel, lambda op: spec_accepts(cirq, cg, proto, op),
+                                                     count=lambda idx, c, want: ctx.count('device:related_circuits', repr(c), not want))
+            for what, c in rel_problems[:1]:
+                ctx.violation('device:validate_circuit', f'{label}: {what}; {rp}', dict(rp, circuit=repr(c)))
 
 
 # ------------------------------------------------------------------ device specifications as they arrive (written by hand)
@@ -1821,6 +1831,116 @@ def device_spec_queries(cirq, cg, rng, qubits, names):
     return ops
 
 
+# ---- operations that are related to each other (the same gate and qubits under other tags, the same gate on the qubits in the
+#      other order / on other qubits, another exponent, another gate on the same qubits) and the circuits made of them
+NAME_COQ = dict(syc='NSyc', sqrt_iswap='NSqrtIswap', sqrt_iswap_inv='NSqrtIswapInv', cz='NCz', cz_pow_gate='NCzPow', phased_xz='NPhasedXZ',
+                virtual_zpow='NVirtualZ', physical_zpow='NPhysicalZ', meas='NMeas', wait='NWait', fsim_via_model='NFsimViaModel',
+                two_pulse_fsim='NTwoPulseFsim', internal_gate='NInternal', reset='NReset')
+VARIANT_BASE_GATES = [['phased_xz', 25000], ['cz', 26000], ['meas', 4000000]]
+VARIANT_Z_SETS = [[], ['virtual_zpow'], ['physical_zpow'], ['virtual_zpow', 'physical_zpow']]
+VARIANT_FSIM_SETS = [[], ['fsim_via_model'], ['two_pulse_fsim'], ['fsim_via_model', 'two_pulse_fsim']]
+
+
+def related_ops(cirq, cg, qubits, couplings):
+    """A pool of operations for one device, as (operation, kind for Codec/DeviceGates.v): every operation shares its gate, its
+    qubits or both with others of the pool.  The tags are the ones that select a GateSpecification (PhysicalZTag: physical_zpow
+    instead of virtual_zpow; FSimViaModelTag / TwoPulseFSimTag: fsim_via_model / two_pulse_fsim), alone, together, next to tags
+    that mean nothing to a device, and on gates they say nothing about."""
+    from cirq_google.ops import PhysicalZTag, FSimViaModelTag, TwoPulseFSimTag
+    PZ, VIA, TWO, CAL = PhysicalZTag(), FSimViaModelTag(), TwoPulseFSimTag(), cg.CalibrationTag('t')
+    every = [(), ('note',), (CAL,), (PZ,), (VIA,), (TWO,), ('note', PZ), (VIA, 'note'), (PZ, VIA), (VIA, TWO)]
+    G = cirq.GridQubit
+    qs = sorted(qubits)
+    a = qs[0]
+    r0, c0 = min(q.row for q in qs), min(q.col for q in qs)
+    off = [q for q in [G(r0 + r, c0 + c) for r in range(4) for c in range(4)] if q not in qubits][0]
+    fsim = cirq.FSimGate(theta=0.3, phi=0.2)
+    pool = []
+
+    def add(op, kind, tagsets):
+        for ts in tagsets:
+            pool.append((op.with_tags(*ts) if ts else op, kind))
+    add((cirq.Z ** 0.25).on(a), 'KZPow', every)
+    add((cirq.Z ** 0.5).on(a), 'KZPow', [(), (PZ,)])
+    add(cirq.X(a), 'KOneQubit', [(), ('note',), (PZ,)])
+    add(cirq.measure(a, key='m'), 'KMeas', [(), (PZ,)])
+    for q in ([qs[-1]] if len(qs) > 1 else []) + [off]:
+        add((cirq.Z ** 0.25).on(q), 'KZPow', [(), (PZ,)])
+    both = [tuple(sorted(p)) for p in couplings]
+    loose = [(x, y) for i, x in enumerate(qs) for y in qs[i + 1:] if frozenset((x, y)) not in couplings]
+    if both:
+        p, q = min(both)
+        add(fsim.on(p, q), 'KFSim', every)
+        add(fsim.on(q, p), 'KFSim', [(), (VIA,), (TWO,)])
+        add(cirq.CZ(p, q), 'KCz', [(), ('note',), (PZ,), (VIA,)])
+        add(cirq.CZ(q, p), 'KCz', [()])
+        add((cirq.CZ ** 0.5).on(p, q), 'KCzPow', [()])
+        add(cirq.ISWAP(p, q), 'KOther', [(), (VIA,)])
+    if loose:
+        u, v = loose[0]
+        add(fsim.on(u, v), 'KFSim', [(), (VIA,), (TWO,)])
+        add(cirq.CZ(u, v), 'KCz', [()])
+    return pool
+
+
+def related_circuits(pool, rng, full):
+    """Circuits over the pool as index lists.  full: every ordered pair (an operation after itself too) and some triples; else the
+    ordered pairs of operations on the same qubits that differ in a gate-selecting tag only (every seed has them) and a sample."""
+    n = len(pool)
+    pairs = [(i, j) for i in range(n) for j in range(n)]
+    if full:
+        out = pairs
+    else:
+        def plain(i):                      # untagged, or under one tag of the kind that selects a GateSpecification
+            ts = pool[i][0].tags
+            return len(ts) == 0 or (len(ts) == 1 and type(ts[0]).__name__ in ('PhysicalZTag', 'FSimViaModelTag', 'TwoPulseFSimTag'))
+        out = [(i, j) for i, j in pairs if i != j and plain(i) and plain(j) and pool[i][0].untagged == pool[j][0].untagged]
+        out += rng.sample(pairs, min(len(pairs), 12))
+    out = list(out) + [tuple(rng.randrange(n) for _ in range(rng.choice([3, 3, 4, 6]))) for _ in range(60 if full else 4)]
+    return out
+
+
+def op_model(cirq, cg, op, kind):
+    from cirq_google.ops import PhysicalZTag, FSimViaModelTag, TwoPulseFSimTag
+    b = lambda t: 'true' if t in op.tags else 'false'
+    qs = '; '.join(f'({coq.zlit(q.row)}, {coq.zlit(q.col)})' for q in op.qubits)
+    return 'mk_op %s %s %s %s [%s]' % (kind, b(PhysicalZTag()), b(FSimViaModelTag()), b(TwoPulseFSimTag()), qs)
+
+
+def judge_related_circuits(cirq, dev, pool, circuits, says, count=None):
+    """validate_circuit (one call over all operations), validate_moment per moment and validate_operation per operation must
+    each accept exactly when the specification allows every operation.  Returns (problems [(what, circuit)], decisions)."""
+    problems, decisions = [], []
+    ok = [says(op) for op, _ in pool]
+    alone = [device_decision(dev.validate_operation, op) for op, _ in pool]
+    ok_of = {id(op): v for (op, _), v in zip(pool, ok)}
+    for idx in circuits:
+        ops = [pool[i][0] for i in idx]
+        c = cirq.Circuit(ops)
+        want = all(ok[i] for i in idx)
+        got = device_decision(dev.validate_circuit, c)
+        many = [m for m in c if len(m) > 1]          # a moment of one operation is that operation (asked above, alone)
+        got_m = [device_decision(dev.validate_moment, m) for m in many]
+        want_m = [all(ok_of[id(o)] if id(o) in ok_of else says(o) for o in m) for m in many]
+        if count:
+            count(idx, c, want)
+        if isinstance(got, bool):
+            decisions.append((idx, got))
+        if got is not want or got_m != want_m:
+            bad = [i for i in idx if not ok[i]]
+            if got is not want:
+                txt = (f'validate_circuit {"accepts" if got is True else "rejects" if got is False else got} the circuit of the operations {ops}; by the specification '
+                       + (f'the operation {pool[bad[0]][0]!r} is not valid (validate_operation on it alone {"accepts" if alone[bad[0]] is True else "rejects"}; '
+                          f'the operations before it in the circuit: {[pool[i][0] for i in idx[:idx.index(bad[0])]]}'
+                          + ('; the same gate on the same qubits under other tags stands earlier in the circuit, and the tags select which GateSpecification an operation needs'
+                             if any(pool[i][0].untagged == pool[bad[0]][0].untagged and pool[i][0].tags != pool[bad[0]][0].tags for i in idx[:idx.index(bad[0])]) else '') + ')' if bad else
+                          f'every operation is valid (validate_operation alone gives {[alone[i] for i in idx]})'))
+            else:
+                txt = f'validate_moment gives {got_m} on the moments with more than one operation of {c!r}; the specification says {want_m}'
+            problems.append((txt, c))
+    return problems, decisions
+
+
 def device_decision(fn, arg):
     try:
         fn(arg)
@@ -1831,14 +1951,14 @@ def device_decision(fn, arg):
         return 'raised ' + type(e).__name__
 
 
-def judge_device_spec(ctx, cirq, cg, v2, data, rng, extra_ops=()):
+def judge_device_spec(ctx, cirq, cg, v2, data, rng, extra_ops=(), extra_circuits=()):
     """Reads the specification with GridDevice.from_proto and judges the device object against what the specification says.
     Returns (problems, row): problems = [(signature, what, extra replay fields)], row = what the model is compared with."""
     proto = build_device_spec(v2, data)
     defect = device_spec_defect(data)
     problems = []
     shown = dict(qubits=data['qubits'], targets=[[n, ORD_NAME[o], t] for n, o, t in data['targets']], gates=[g for g, _ in data['gates']])
-    row = dict(device=None, out_targets=[], out_qubits=[], decisions=[])
+    row = dict(device=None, out_targets=[], out_qubits=[], decisions=[], names=[], pool=[], circuits=[])
     try:
         dev = cg.GridDevice.from_proto(proto)
     except ValueError as e:
@@ -1913,6 +2033,22 @@ def judge_device_spec(ctx, cirq, cg, v2, data, rng, extra_ops=()):
         ops_.insert(rng.randint(0, len(ops_)), b)
         trials.append((cirq.Circuit(ops_), False))
         trials.append((cirq.Moment([b]), False))
+    for c in extra_circuits:
+        trials.append((c, all(says(o) for o in (c.operations if isinstance(c, cirq.Moment) else c.all_operations()))))
+    # circuits of related operations: one validate_circuit call sees the same gate on the same qubits under other tags, in the other
+    # qubit order, on other qubits ...; each operation still has to be one the specification describes
+    if qubits:
+        import json
+        pool = related_ops(cirq, cg, qubits, couplings)
+        dkey = json.dumps(data, sort_keys=True, default=str)
+        rel_problems, rel_decisions = judge_related_circuits(
+            cirq, dev, pool, related_circuits(pool, rng, bool(data.get('variant_grid'))), says,
+            count=lambda idx, c, want: ctx.count('device_spec:related_circuits', dkey + str(idx), len({pool[i][0].untagged for i in idx}) < len(set(idx))))
+        for what, c in rel_problems[:3]:
+            problems.append(('device_spec:validate_circuit', f'{what}; couplings {pairs_text(couplings)}; spec = {shown}', dict(circuit=repr(c))))
+        row['names'] = sorted(names)
+        row['pool'] = pool
+        row['circuits'] = rel_decisions
     for c, want in trials:
         fn = dev.validate_moment if isinstance(c, cirq.Moment) else dev.validate_circuit
         got = device_decision(fn, c)
@@ -1953,7 +2089,7 @@ def device_spec_literal(data):
     return '{| valid_qubits := [%s]; valid_targets := [%s] |}' % ('; '.join(q(i) for i in data['qubits']), tss)
 
 
-def fixed_device_specs():
+def fixed_device_specs(all_variants=False):
     """The same for every seed: target sets of every ordering x targets of one, two, three and all ids, next to SYMMETRIC pair
     sets or alone, on a 2x3 grid and on a two-qubit device; pair sets in both id orders, repeated, split over sets; specifications
     that describe no device."""
@@ -1990,6 +2126,13 @@ def fixed_device_specs():
         out.append(dict(qubits=ids, targets=[['2_qubit_targets', ORD_SYM, [[ids[0], ids[0]]]]], gates=SPEC_FIXED_GATES))
         out.append(dict(qubits=ids, targets=[['triples', ORD_SYM, [[ids[0], ids[1], ids[0]]]]], gates=SPEC_FIXED_GATES))
         out.append(dict(qubits=ids + ids[2:3], targets=[], gates=SPEC_FIXED_GATES))
+    # gate variants that a tag selects: every combination of the Z specifications x the FSim specifications, on a 2x2 grid with three
+    # couplings; judged on every ordered pair of related operations (variant_grid)
+    for k, (zs, fs) in enumerate((z, f) for i, z in enumerate(VARIANT_Z_SETS) for j, f in enumerate(VARIANT_FSIM_SETS) if all_variants or (j - i) % 4 < 2):
+        r0, c0 = ((0, 0), (3, 5))[k % 2]
+        g = [gid((r0 + r, c0 + c)) for r in range(2) for c in range(2)]
+        gates = VARIANT_BASE_GATES + [[nm, 1000 * (i + 1)] for i, nm in enumerate(zs + fs)]
+        out.append(dict(qubits=g, targets=[['2_qubit_targets', ORD_SYM, [[g[0], g[1]], [g[2], g[0]], [g[1], g[3]]]]], gates=gates, variant_grid=True))
     out.append(dict(qubits=['0_0', '-1_0'], targets=[], gates=SPEC_FIXED_GATES))
     out.append(dict(qubits=['0_0', 'q0_1'], targets=[], gates=SPEC_FIXED_GATES))
     out.append(dict(qubits=['0_0', '3'], targets=[], gates=SPEC_FIXED_GATES))
@@ -2058,7 +2201,7 @@ def device_specs_stream(ctx, cirq, cg, v2, n):
     object against the meaning of the specification (Python oracle) and against Codec/DeviceSpec.v (vm_compute)."""
     import re
     rng = ctx.rng
-    cases = fixed_device_specs() + [gen_device_spec(rng) for _ in range(n)]
+    cases = fixed_device_specs(all_variants=ctx.tier != 'quick') + [gen_device_spec(rng) for _ in range(n)]
     rows = []
     for data in cases:
         data = dict(data, kind='device_spec')
@@ -2097,6 +2240,31 @@ def device_specs_stream(ctx, cirq, cg, v2, n):
                 data, row = part[idx]
                 ctx.mark_broken('correspondence:device_spec:' + which, f'model and implementation differ on the specification {dict(qubits=data["qubits"], targets=data["targets"])}: '
                                 f'implementation device {row["device"]}, to_proto targets {row["out_targets"]}')
+    # whole circuits of related operations against Codec/DeviceGates.v (gate variants selected by tags + qubits / couplings)
+    crows = [(data, row) for data, row in rows if row['circuits']]
+    items, parts, groups = [], [], [[]]
+    for cr in crows:                             # shards of about 9000 circuits, so the grid specifications spread over several files
+        if groups[-1] and sum(len(r['circuits']) for _, r in groups[-1]) + len(cr[1]['circuits']) > 9000:
+            groups.append([])
+        groups[-1].append(cr)
+    for shard, part in enumerate(g for g in groups if g):
+        text = 'From Coq Require Import ZArith List Bool.\nFrom VF Require Import Codec.DeviceSpec Codec.DeviceGates Base.Harness.\nImport ListNotations.\nOpen Scope Z_scope.\n'
+        text += 'Definition cases : list circuit_case := [\n'
+        lits = []
+        for data, row in part:
+            circs = '; '.join('([%s]%%nat, %s)' % ('; '.join(str(i) for i in idx), 'true' if got else 'false') for idx, got in row['circuits'])
+            lits.append('{| cc_spec := %s; cc_names := [%s]; cc_pool := [%s]; cc_circuits := [%s] |}' % (
+                device_spec_literal(data), '; '.join(NAME_COQ[n_] for n_ in row['names']), '; '.join(op_model(cirq, cg, o, k) for o, k in row['pool']), circs))
+        text += ';\n'.join(lits) + '].\nEval vm_compute in failing case_circuits_ok cases.\n'
+        items.append((f'c16_device_circuits_{ctx.seed}_{shard}', text))
+        parts.append(part)
+    for part, out in zip(parts, coq.coq_eval_many(items, workers=6)):
+        vals = coq.parse_evals(out)
+        assert len(vals) == 1, vals
+        for idx in coq.parse_nat_list(vals[0]):
+            data, row = part[idx]
+            ctx.mark_broken('correspondence:device_spec:validate_circuit', f'model and implementation differ on validate_circuit over circuits of related operations for the '
+                            f'specification {dict(qubits=data["qubits"], targets=data["targets"], gates=data["gates"])}')
 
 
 # ------------------------------------------------------------------ array-valued arguments (ndarrays.py)
@@ -3100,7 +3268,10 @@ def run(ctx):
                 'two axes, four elements and not C-contiguous; sequence-valued arguments: every sequence of one, two and three numbers over bool / numpy bool / int / numpy integer / float / numpy floating '
                 'in every order (so every narrower-before-wider mixture) as list, tuple, set and frozenset, plus special values (zeros and bools leading fractions, a late float after eight integers, int64 limits, '
                 'strings, nested sequences, complex, symbols, unit values, bytes, empty) for every seed, plus random sequences of 1..8 elements; non-trivial = at least two kinds of element; every pair of device qubits in both orders goes '
-                'before validate_operation; non-trivial = the specification has a coupling or a two-id target outside SYMMETRIC sets')
+                'before validate_operation; non-trivial = the specification has a coupling or a two-id target outside SYMMETRIC sets; circuits of related operations before validate_circuit / validate_moment: a pool per device of Z powers, '
+                'FSim gates, CZ, X, measurement on the same qubits under every combination of the tags that select a GateSpecification (PhysicalZTag, FSimViaModelTag, TwoPulseFSimTag) and tags that mean nothing to a device, in the other qubit order, '
+                'on other / uncoupled / off-device qubits, with another exponent or gate; every ordered pair of the pool (and triples .. sextuples) on a fixed grid of specifications {no, virtual, physical, both Z} x {no, via-model, two-pulse, both FSim} (8 of the 16 combinations in the quick tier, each set in two) '
+                'for every seed, the ordered pairs that differ in a selecting tag only plus a sample on every other specification and device; non-trivial = two different operations of the circuit are equal without their tags')
     ctx.assumptions += ['vf/checks/c16.py adapters calling cirq_google and canonicalising outputs',
                         'protobuf and numpy are trusted', 'leaf identifiers are assigned by Python equality/hash']
     ctx.set_obligations(coq.compile_props('C16'))
@@ -3236,11 +3407,18 @@ def replay(ctx, data):
             want = spec_accepts(cirq, cg, dev.to_proto(), op)
             print('decisions', dec, 'specification', want)
             ok = ok and dec[0] == dec[1] == want
+        if 'circuit' in data:
+            c = eval(data['circuit'], ns)
+            want = all(spec_accepts(cirq, cg, dev.to_proto(), o) for o in c.all_operations())
+            dec = [device_decision(d_.validate_circuit, c) for d_ in (dev, dev2)]
+            print('validate_circuit', dec, 'specification', want)
+            ok = ok and dec[0] is want and dec[1] is want
         return ok
     if k == 'device_spec':
         import random
         extra = [eval(data['op'], ns)] if 'op' in data else []
-        problems, _ = judge_device_spec(ctx, cirq, cg, v2, data, random.Random(0), extra_ops=extra)
+        extra_c = [eval(data['circuit'], ns)] if 'circuit' in data else []
+        problems, _ = judge_device_spec(ctx, cirq, cg, v2, data, random.Random(0), extra_ops=extra, extra_circuits=extra_c)
         for sig, what, _ in problems:
             print(sig, '|', what[:600])
         return not problems
